@@ -33,8 +33,8 @@ pub fn flag<P: Program, S: Source>(s: &mut S, p: &P, leaves: &[Leaf], is_view: b
     {
         if !any {
             chk!(r.verif_children().is_empty(), "[c09:untracked-children] a result of untracked operands recorded its operands");
-        } else {
-            chk!(r.verif_children().len() == leaves.len(), "[c09:children] a tracked result did not record every operand");
+        } else if !is_view {
+            chk!(!r.verif_children().is_empty(), "[c09:children] a tracked result recorded no operand");
         }
     }
     // the handles' own flags are untouched by the operation
